@@ -331,6 +331,25 @@ PROPS["C16"] = {
     "explanation": "FullRTSwap.tla models the three-lock snapshot (reader and swap lock steps) and Crawler.tla the crawl work list (seeding, dispatch, one result per job, new peers appended) over all small graphs, failing sets and seed lists with repetitions; both are model-checked with negative controls; the real FullRT answers closest-peers queries for random crawled sets with IP groups, K and diversity limits and TLC compares every result with the set-theoretic definition (FullRTTrace.tla); a reader is raced against the installation of a second crawl result under every interleaving of their lock steps; the real DefaultCrawler crawls scripted graphs with failing peers, repeated seeds and any reply order; every public operation runs on an empty or tiny table with construction options missing.",
 }
 
+PROPS["C15"] = {
+    "exhaustive": [
+        {"spec": "Dual.tla", "cfg": "Dual_quick.cfg"},
+        {"spec": "Dual.tla", "cfg": "Dual_neg_dedup.cfg", "expect": "violation"},
+        {"spec": "Dual.tla", "cfg": "Dual_neg_count.cfg", "expect": "violation"},
+        {"spec": "Dual.tla", "cfg": "Dual_neg_writes.cfg", "expect": "violation"},
+        {"spec": "Dual.tla", "cfg": "Dual_neg_prefer.cfg", "expect": "violation"},
+    ],
+    "drivers": [{"test": "TestDual", "trace_spec": "DualTrace.tla", "trace_cfg": "DualTrace.cfg", "inv_cfg": {"C15": "DualTrace_C15.cfg"}}],
+    "assumptions": [
+        "one hand-written host carries both halves; each half gets its own gated message sender through the public option, which is how an RPC is attributed to a half",
+        "addresses are literal representatives of the classes public4, public6, private4, ula6, loopback, relay over a public address, relay over a private address; DNS addresses are not judged",
+        "routing tables are filled directly (TryAddPeer) with connected peers; 'WAN active' is read as the WAN table size the harness observes before the call",
+        "GetValue: a half's lookup counts as successful when a valid record was delivered to it; which record is the best one is C04's subject",
+        "FindPeer: the union is judged as 'everything the shared peerstore holds for the peer when the later half has finished', required exactly when both halves reached the peer themselves",
+    ],
+    "explanation": "Dual.tla models the provider merge loop step by step (two streams without repetition, found-set, countdown, every arrival order of items and stream ends) and states write routing, value preference and the address-class filters as functions; TLC checks once-per-provider, the count cap and the functions with four negative controls; a real dual.DHT performs provide, put, get, find-peer and find-providers against scripted WAN and LAN peers whose referrals carry every mix of address classes, under every (DFS, provider merge) or seeded arrival order; TLC validates which half sent what to whom, ADD_PROVIDER payloads, results and peerstore content against DualTrace.tla.",
+}
+
 
 def overlay_file(scratch, name):
     """Writes the -overlay json for an internal-package driver (add-only mappings)."""
@@ -1226,7 +1245,110 @@ def mut_c16_swap_mix(run):
     return None
 
 
+def _c15(run):
+    return "wanrt" in run[0]
+
+
+def mut_c15_wrong_half(run):
+    if not _c15(run) or run[0]["op"] not in ("provide", "putvalue"):
+        return None
+    for i, ev in enumerate(run):
+        if ev["e"] == "Sent":
+            r = copy.deepcopy(run)
+            r[i]["net"] = "lan" if ev["net"] == "wan" else "wan"
+            return r
+    return None
+
+
+def mut_c15_lan_preferred(run):
+    if not _c15(run) or run[0]["op"] != "getvalue":
+        return None
+    wan = {ev["val"] for ev in run if ev["e"] == "Deliver" and ev["net"] == "wan" and not ev["fail"] and ev["val"].startswith("V")}
+    if not wan:
+        return None
+    for i, ev in enumerate(run):
+        if ev["e"] == "Return":
+            r = copy.deepcopy(run)
+            r[i]["value"] = "V29"
+            return r
+    return None
+
+
+def mut_c15_dup_provider(run):
+    if not _c15(run) or run[0]["op"] != "findprov":
+        return None
+    for i, ev in enumerate(run):
+        if ev["e"] == "Return" and ev["emitted"] and (run[0]["count"] == 0 or len(ev["emitted"]) < run[0]["count"]):
+            r = copy.deepcopy(run)
+            r[i]["emitted"] = ev["emitted"] + [ev["emitted"][0]]
+            return r
+    return None
+
+
+def mut_c15_over_count(run):
+    if not _c15(run) or run[0]["op"] != "findprov" or run[0]["count"] == 0:
+        return None
+    for i, ev in enumerate(run):
+        if ev["e"] == "Return" and len(ev["emitted"]) == run[0]["count"]:
+            extra = [x for x in run[0]["offeredprovs"] if x not in ev["emitted"]]
+            if extra:
+                r = copy.deepcopy(run)
+                r[i]["emitted"] = ev["emitted"] + [extra[0]]
+                return r
+    return None
+
+
+def mut_c15_private_referral(run):
+    if not _c15(run):
+        return None
+    for i, ev in enumerate(run):
+        if ev["e"] == "Sent" and ev["net"] == "wan" and ev["isref"]:
+            r = copy.deepcopy(run)
+            r[i]["refclasses"] = ["private4", "relaypublic"]
+            return r
+    return None
+
+
+def mut_c15_stored_private(run):
+    if not _c15(run):
+        return None
+    for i, ev in enumerate(run):
+        if ev["e"] == "Peerstore":
+            for j, x in enumerate(ev["learned"]):
+                if x["net"] == "wan" and "private4" in x["offered"]:
+                    r = copy.deepcopy(run)
+                    r[i]["learned"][j]["stored"] = sorted(set(x["stored"]) | {"private4"})
+                    return r
+    return None
+
+
+def mut_c15_advertised_loopback(run):
+    if not _c15(run):
+        return None
+    for i, ev in enumerate(run):
+        if ev["e"] == "Sent" and ev["typ"] == "ADD_PROVIDER":
+            r = copy.deepcopy(run)
+            r[i]["payload"] = ev["payload"] + ["loopback"]
+            return r
+    return None
+
+
+def mut_c15_union(run):
+    if not _c15(run) or run[0]["op"] != "findpeer":
+        return None
+    asked = {ev["net"] for ev in run if ev["e"] == "Sent" and ev["p"] == "T"}
+    if asked != {"wan", "lan"}:
+        return None
+    for i, ev in enumerate(run):
+        if ev["e"] == "Return" and len(ev["addrs"]) >= 1:
+            r = copy.deepcopy(run)
+            r[i]["addrs"] = ev["addrs"][1:]
+            return r
+    return None
+
+
 MUTATIONS = {
+    "C15": [mut_c15_wrong_half, mut_c15_lan_preferred, mut_c15_dup_provider, mut_c15_over_count, mut_c15_private_referral, mut_c15_stored_private, mut_c15_advertised_loopback, mut_c15_union],
     "C16": [mut_c16_unsorted, mut_c16_not_nearest, mut_c16_stranger, mut_c16_group, mut_c16_crawl_twice, mut_c16_no_outcome, mut_c16_unreached, mut_c16_op_panic, mut_c16_swap_mix],
     "C11": [mut_c11_crossed, mut_c11_late_success, mut_c11_pipelined, mut_c11_reuse, mut_c11_not_reset, mut_c11_two_streams],
     "C13": [mut_c13_late_answer, mut_c13_lost_switch, mut_c13_stream_left_open, mut_c13_handlers, mut_c13_unanswered],
